@@ -74,6 +74,39 @@ def variant_inits(t, rng):
     return out
 
 
+def flex_boundary_inits(t, rng):
+    """FlexVec whose offset type is one byte wide: value specs with an item whose step (slot + rounded payload) is
+    exactly L::MAX - 1, L::MAX and L::MAX + 1 — the reserved "last item" marker must not be produced as a distance"""
+    from shapes import ceil_mul
+    out = []
+    if t[0] != 'flex' or INTS[t[2]][0] != 1:
+        return out
+    it = t[1]
+    if it[0] == 'vec' and ssize(it[1]) > 0 and it[1][0] in ('int', 'bool'):
+        s, d = ssize(it[1]), max(INTS[it[2]][0], align(it[1]))
+        cap_n = 256 ** INTS[it[2]][0] - 1
+    elif it[0] == 'str':
+        s, d = 1, INTS[it[1]][0]
+        cap_n = 256 ** INTS[it[1]][0] - 1
+    else:
+        return out
+    al = align(t)
+    os_ = max(INTS[t[2]][0], align(it))
+
+    def item(n):
+        if it[0] == 'str':
+            return '(str %s)' % hexs(bytes([0x61 + (j % 26) for j in range(n)]))
+        # the harness instantiates FromArray for N <= 8 only: long items go through vec::FromIterator
+        return ('(varr%s)' if n <= 8 else '(viter%s)') % ''.join(' ' + gen_init(it[1], rng, 3, False) for _ in range(n))
+    for n in range(0, min(cap_n, 300) + 1):
+        step = os_ + ceil_mul(d + s * n, al)
+        if step in (254, 255, 256):
+            small = item(1 if cap_n >= 1 else 0)
+            out.append('(flex %s %s)' % (item(n), small))
+            out.append('(flex %s %s %s)' % (small, item(n), small))
+    return out[:6]
+
+
 def garbage(rng, n):
     return bytes(rng.randrange(256) for _ in range(n))
 
@@ -83,7 +116,7 @@ def stage1(shapes, seed, per_shape=3):
     rng = random.Random(seed * 7919 + 1)
     lines, meta = [], {}
     for sid, t in shapes:
-        inits = variant_inits(t, rng)
+        inits = variant_inits(t, rng) + flex_boundary_inits(t, rng)
         while len(inits) < per_shape + (1 if has_default(t) else 0):
             inits.append(gen_init(t, rng))
         seen = set()
@@ -92,7 +125,7 @@ def stage1(shapes, seed, per_shape=3):
                 continue
             seen.add(ini)
             cid = '%s.v%d' % (sid, j)
-            buf = garbage(rng, 320)
+            buf = garbage(rng, 640)
             lines.append('E %s %s 0 %s %s' % (cid, sid, hexs(buf), ini))
             meta[cid] = {'shape': sid, 'init': ini, 'prefill': buf}
     return lines, meta
@@ -159,7 +192,11 @@ def stage2(shapes, s1_meta, s1_model, seed, tier='quick'):
         a = align(t)
         # ---- emplacement: every buffer length 0 .. size + 2a + 1, offset 0; all offsets at a few lengths
         maxlen = size + 2 * a + 1
-        for n in range(0, maxlen + 1):
+        lens = range(0, maxlen + 1)
+        if size > 96:   # long images: both ends and a seeded sample of the middle
+            lens = sorted(set(list(range(0, 12)) + list(range(size - 2 * a - 2, maxlen + 1)) +
+                              [rng.randrange(12, size) for _ in range(12)]))
+        for n in lens:
             add('E', '%s.E%d' % (cid, n), sid, 0, garbage(rng, n), ini, kind='emplace', base=cid, extent=size)
         for n in sorted(set([max(size - 1, 0), size, size + a])):
             for off in range(1, 2 * a if a > 1 else 2):
@@ -167,7 +204,11 @@ def stage2(shapes, s1_meta, s1_model, seed, tier='quick'):
                     extent=size)
         # ---- the canonical image: mapping, all prefixes, extensions
         add('M', '%s.M' % cid, sid, 0, img, kind='image', base=cid, size=size)
-        for k in range(0, size):
+        cuts = range(0, size)
+        if size > 96:
+            cuts = sorted(set(list(range(0, 12)) + list(range(size - 2 * a - 2, size)) +
+                              [rng.randrange(12, size) for _ in range(12)]))
+        for k in cuts:
             add('M', '%s.P%d' % (cid, k), sid, 0, img[:k], kind='prefix', base=cid, cut=k, size=size)
         for j, ext in enumerate([garbage(rng, 1), garbage(rng, a), garbage(rng, a + 1), bytes(2 * a + 3),
                                  bytes([0xff] * (a + 2)), img[:min(size, 2 * a + 1)], garbage(rng, 3 * a + 5)]):
